@@ -261,6 +261,9 @@ def _repo(root):
     return r
 
 
+EXPECT_UNCHANGED = set()     # scenarios whose operation must leave the protected file as it was
+
+
 def caller_scenarios():
     """name -> setup(root) returning (fn, [(lockrel, targetrel)]); fn performs the write."""
     from dulwich.objects import Blob, Commit, Tree
@@ -346,6 +349,53 @@ def caller_scenarios():
         c = mkrefs(root, packed=True)
         return (lambda: c.add_packed_refs({b"refs/heads/z": B, b"refs/heads/n": None})), [("packed-refs.lock", "packed-refs")]
     S["refs.py:DiskRefsContainer.add_packed_refs"] = ref_add_packed
+
+    def locked_ref_noop(root):
+        from dulwich.refs import locked_ref
+        c = mkrefs(root)
+
+        def do():
+            with locked_ref(c, b"refs/heads/m") as lr:
+                if lr.ensure_equals(B):      # it holds A: nothing is written
+                    lr.set(A)
+        return do, [("refs/heads/m.lock", "refs/heads/m")]
+    S["refs.py:locked_ref[condition false, nothing written]"] = locked_ref_noop
+    EXPECT_UNCHANGED.add("refs.py:locked_ref[condition false, nothing written]")
+
+    def locked_ref_set(root):
+        from dulwich.refs import locked_ref
+        c = mkrefs(root)
+
+        def do():
+            with locked_ref(c, b"refs/heads/m") as lr:
+                if lr.ensure_equals(A):
+                    lr.set(B)
+        return do, [("refs/heads/m.lock", "refs/heads/m")]
+    S["refs.py:locked_ref.set"] = locked_ref_set
+
+    def locked_ref_delete(root):
+        from dulwich.refs import locked_ref
+        c = mkrefs(root, packed=True)
+
+        def do():
+            with locked_ref(c, b"refs/heads/m") as lr:
+                lr.delete()
+        return do, [("packed-refs.lock", "packed-refs"), ("refs/heads/m.lock", "refs/heads/m")]
+    S["refs.py:locked_ref.delete[packed]"] = locked_ref_delete
+
+    def locked_index_ctx(root):
+        from dulwich.index import Index, IndexEntry, locked_index
+        p = os.path.join(root, "index")
+        idx = Index(p)
+        idx[b"old"] = IndexEntry((1, 0), (1, 0), 1, 1, 0o100644, 0, 0, 3, A, 0, 0)
+        idx.write()
+
+        def do():
+            with locked_index(p) as ix:
+                for i in range(3):
+                    ix[b"n%d" % i] = IndexEntry((1, 0), (1, 0), 1, 1, 0o100644, 0, 0, 3, B, 0, 0)
+        return do, [("index.lock", "index")]
+    S["index.py:locked_index"] = locked_index_ctx
 
     def config_write(root):
         from dulwich.config import ConfigFile
@@ -514,6 +564,12 @@ def mode_caller_faults(ctx, tid0):
         ref.run()
         if ref.sched.results[0].exc:
             raise MachineryError(f"reference run of {name} failed: {ref.sched.results[0].exc} {ref.sched.results[0].exc_msg}")
+        if name in EXPECT_UNCHANGED:
+            for (lockp, tgtp) in ref.pairs:
+                if ref.after[tgtp] != ref.before[tgtp]:
+                    ctx.violation(f"{name}|AtomicReplace|no-op operation replaced the file pair={tgtp}",
+                                  f"{name}: the operation writes nothing, yet {tgtp} changed from {ref.before[tgtp]!r} to {ref.after[tgtp]!r}",
+                                  {"site": name, "before": ref.before[tgtp], "after": ref.after[tgtp]})
         ncalls = ref.world.ncalls.get(0, 0)
         bounds = {}
         for (lockp, tgtp) in ref.pairs:
